@@ -1,9 +1,62 @@
 import MazeVerif.DriverOps.Util
 import MazeVerif.Model.Coll
+import MazeVerif.Model.CollectionState
 namespace MZ.Drv.C16
 open Lean MZ.Drv MZ.Coll
 
-/-- ops: `C16.collection` {members: [[id,...],...], cfg_counts:[..]} →
+/-- one statement of `C16.machine`: `["set",j,[ids…]]`, `["mupd",j]`, `["cupd"]`, `["mazes"]`, `["get",i]`, `["len"]`,
+    `["lengths"]`, `["count"]` -/
+def asOp (j : Json) : R (Op Nat) := do
+  match (← j.getArr?).toList with
+  | [t, a, b] =>
+    match ← t.getStr? with
+    | "set" => pure (.setMember (← a.getNat?) (← asNatList b))
+    | t => throw s!"C16.machine: unknown 3-element statement {t}"
+  | [t, a] =>
+    match ← t.getStr? with
+    | "mupd" => pure (.memberUpdateCfg (← a.getNat?))
+    | "get" => pure (.getitem (← a.getNat?))
+    | t => throw s!"C16.machine: unknown 2-element statement {t}"
+  | [t] =>
+    match ← t.getStr? with
+    | "cupd" => pure .collUpdateCfg
+    | "mazes" => pure .readMazes
+    | "len" => pure .len
+    | "lengths" => pure .lengths
+    | "count" => pure .cfgCount
+    | t => throw s!"C16.machine: unknown 1-element statement {t}"
+  | _ => throw "C16.machine: a statement is [name], [name,n] or [\"set\",j,[ids]]"
+
+/-- output of one statement: a statement without value → `null`, an item / a count → number, a maze list / the
+    lengths → array, IndexError → `{"error":"IndexError"}` -/
+def jOut : Out Nat → Json
+  | .unit => Json.null
+  | .item x => jNat x
+  | .list l => jNats l
+  | .nat n => jNat n
+  | .nats l => jNats l
+  | .error => obj [("error", Json.str "IndexError")]
+
+def jState (s : CState Nat) : Json :=
+  obj [("members", Json.arr (s.members.map jNats).toArray), ("member_cfg_n", jNats s.memberCfgN),
+       ("extra_cfg_n", jNat s.extraCfgN), ("n_mazes", jNat s.collCfgN),
+       ("dict_n_mazes", match s.dictN with | some n => jNat n | none => Json.null),
+       ("cache", match s.cache with | some l => jNats l | none => Json.null)]
+
+/-- `clean[k]` = no member slot is dirty just before statement `k` (`dirty [] (ops.take k) = []`) -/
+def cleanFlags (d : List Nat) : List (Op Nat) → List Bool
+  | [] => []
+  | o :: os => d.isEmpty :: cleanFlags (dirty d [o]) os
+
+/-- ops: `C16.machine` {members: [[id,...],...], ops: [statement,...], member_cfg_n?: [..], extra_cfg_n?: n} →
+    {outs: [one output per statement], final: the last state, clean: [bool per statement], disciplined: bool}.
+    Start state = `init members` (member cfg counts = lengths, no surplus configs, nothing cached) unless
+    `member_cfg_n` / `extra_cfg_n` say otherwise (a collection built by the constructor from arbitrary configs).
+    `clean` / `disciplined` start from the slots whose given `member_cfg_n` differs from the length (none for `init`);
+    where `clean[k]` holds and `extra_cfg_n = 0` and there is one config per member, theorem
+    `C16_state_counts_invariant` says the counts read by statement `k` agree.
+
+    `C16.collection` {members: [[id,...],...], cfg_counts:[..]} →
     {len, mazes, lengths, n_mazes, items:[getItem i for i < len + 2]} (item = id or null) -/
 def handle (op : String) (j : Json) : R Json := do
   match op with
@@ -21,6 +74,23 @@ def handle (op : String) (j : Json) : R Json := do
     pure <| obj [("len", jNat n), ("mazes", jNats (mazes members)),
                  ("lengths", jNats (members.map List.length)), ("n_mazes", jNat (cfgNMazes cnts)),
                  ("items", Json.arr items.toArray), ("locs", Json.arr locs.toArray)]
+  | "C16.machine" =>
+    let members ← (← getArr j "members").mapM asNatList
+    let ops ← (← getArr j "ops").mapM asOp
+    let s0 := init members
+    let s0 ← match optFld j "member_cfg_n" with
+      | some v => do let l ← asNatList v; pure { s0 with memberCfgN := l }
+      | none => pure s0
+    let s0 ← match optFld j "extra_cfg_n" with
+      | some v => do let n ← v.getNat?; pure { s0 with extraCfgN := n }
+      | none => pure s0
+    let r := run s0 ops
+    -- slots that are dirty at the start (only non-empty when `member_cfg_n` was given)
+    let d0 := (List.range members.length).filter fun k =>
+      s0.memberCfgN[k]? != (members[k]?).map List.length
+    pure <| obj [("outs", Json.arr (r.2.map jOut).toArray), ("final", jState r.1),
+                 ("clean", Json.arr ((cleanFlags d0 ops).map Json.bool).toArray),
+                 ("disciplined", Json.bool (disciplined d0 ops))]
   | _ => throw s!"unknown op {op}"
 
 end MZ.Drv.C16
